@@ -26,7 +26,9 @@ MiniProto ==
        msgs |-> [data_offer |-> <<[name |-> "id", type |-> "new_id", iface |-> "wl_data_offer", eiface |-> "", ename |-> ""]>>,
                  selection |-> <<[name |-> "id", type |-> "object", iface |-> "wl_data_offer", eiface |-> "", ename |-> ""]>>]],
    wl_data_offer |-> [version |-> 3, enums |-> [none |-> [bitfield |-> FALSE, entries |-> <<>>]],
-       msgs |-> [finish |-> <<>>]]]
+       msgs |-> [finish |-> <<>>,
+                 receive |-> <<[name |-> "mime_type", type |-> "string", iface |-> "", eiface |-> "", ename |-> ""],
+                               [name |-> "fd", type |-> "fd", iface |-> "", eiface |-> "", ename |-> ""]>>]]]
 
 SrvIds1 == {-16777216}
 SrvIds2 == {-16777216, -1}
@@ -79,5 +81,6 @@ ObjA(ty, i) == [k |-> "obj", type |-> ty, id |-> i]
 NilA == [k |-> "nil", type |-> ""]
 IntA(v) == [k |-> "int", v |-> v]
 StrA(s) == [k |-> "str", s |-> s]
+FdA(v) == [k |-> "fd", v |-> v]
 
 =============================================================================
